@@ -187,7 +187,7 @@ Lemma tie_idl_generateMethod_lits : f_idl_generateMethod_lits =
 Proof. reflexivity. Qed.
 
 Lemma tie_idl_generateMethod_text : f_idl_generateMethod_text =
-  "func generateMethod(writer io.Writer, set *signature.TypeSet, m object.MetaMethod, methodName string) error { paramType, err := signature.Parse(m.ParametersSignature) if err != nil { return fmt.Errorf("""", m.Name, err) } retType, err := signature.Parse(m.ReturnSignature) if err != nil { return fmt.Errorf("""", m.Name, err) } tupleType, ok := paramType.(*signature.TupleType) if !ok { tupleType = signature.NewTupleType([]signature.Type{paramType}) } paramSignature := """" if m.Parameters == nil || len(m.Parameters) != len(tupleType.Members) { paramSignature = tupleType.ParamIDL() } else { for i, p := range m.Parameters { if paramSignature != """" { paramSignature += """" } name := signature.CleanVarName(i, p.Name) paramSignature += name + """" + tupleType.Members[i].Type.SignatureIDL() } } returnSignature := """" + retType.SignatureIDL() + """" if retType.Signature() == """" { returnSignature = """" } fmt.Fprintf(writer, """", m.Name, paramSignature, returnSignature, m.Uid) paramType.RegisterTo(set) retType.RegisterTo(set) return nil }"%string.
+  "func generateMethod(writer io.Writer, set *signature.TypeSet, m object.MetaMethod, methodName string) error { paramType, err := signature.Parse(m.ParametersSignature) if err != nil { return fmt.Errorf("""", m.Name, err) } retType, err := signature.Parse(m.ReturnSignature) if err != nil { return fmt.Errorf("""", m.Name, err) } tupleType, ok := paramType.(*signature.TupleType) if !ok { tupleType = signature.NewTupleType([]signature.Type{paramType}) } paramSignature := """" if m.Para" ++ "meters == nil || len(m.Para" ++ "meters) != len(tupleType.Members) { paramSignature = tupleType.ParamIDL() } else { for i, p := range m.Para" ++ "meters { if paramSignature != """" { paramSignature += """" } name := signature.CleanVarName(i, p.Name) paramSignature += name + """" + tupleType.Members[i].Type.SignatureIDL() } } returnSignature := """" + retType.SignatureIDL() + """" if retType.Signature() == """" { returnSignature = """" } fmt.Fprintf(writer, """", m.Name, paramSignature, returnSignature, m.Uid) paramType.RegisterTo(set) retType.RegisterTo(set) return nil }"%string.
 Proof. reflexivity. Qed.
 
 Lemma tie_idl_generateProperty_lits : f_idl_generateProperty_lits =
@@ -247,7 +247,7 @@ Lemma tie_idl_RefSignature_text : f_idl_RefSignature_text =
 Proof. reflexivity. Qed.
 
 Lemma tie_idl_MethodMeta_text : f_idl_MethodMeta_text =
-  "func (m Method) Meta(id uint32) object.MetaMethod { var meta object.MetaMethod meta.Uid = id meta.Name = m.Name meta.ReturnSignature = m.Return.Signature() meta.ReturnDescription = m.Return.SignatureIDL() params := make([]signature.Type, 0) meta.Parameters = make([]object.MetaMethodParameter, 0) for _, p := range m.Params { var param object.MetaMethodParameter param.Name = p.Name param.Description = p.Type.SignatureIDL() meta.Parameters = append(meta.Parameters, param) params = append(params, p.Type) } meta.ParametersSignature = signature.NewTupleType(params).Signature() return meta }"%string.
+  "func (m Method) Meta(id uint32) object.MetaMethod { var meta object.MetaMethod meta.Uid = id meta.Name = m.Name meta.ReturnSignature = m.Return.Signature() meta.ReturnDescription = m.Return.SignatureIDL() params := make([]signature.Type, 0) meta.Para" ++ "meters = make([]object.MetaMethodParameter, 0) for _, p := range m.Params { var param object.MetaMethodParameter param.Name = p.Name param.Description = p.Type.SignatureIDL() meta.Para" ++ "meters = append(meta.Para" ++ "meters, param) params = append(params, p.Type) } meta.ParametersSignature = signature.NewTupleType(params).Signature() return meta }"%string.
 Proof. reflexivity. Qed.
 
 Lemma tie_idl_SignalMeta_text : f_idl_SignalMeta_text =
